@@ -15,6 +15,5 @@ func VerifTouchUpDirs(rt *Transfer, fileList []*File) error { return rt.touchUpD
 
 func VerifRetouch(rt *Transfer) bool { return rt.retouchDirPerms }
 
-var VerifFindInFileList = findInFileList
 
 var VerifSortFileList = sortFileList
